@@ -25,7 +25,7 @@ GEN_CFGS = {
 }
 
 
-def gen_cfg_text(mode, pool_size, depth, clients=('A', 'B'), actors=('A',), maxmsgs=3):
+def gen_cfg_text(mode, pool_size, depth, clients=('A', 'B'), actors=('A',), maxmsgs=3, probes_last=False):
     def setof(xs):
         return '{' + ', '.join('"%s"' % x for x in xs) + '}'
     return '''SPECIFICATION GSpec
@@ -40,15 +40,16 @@ CONSTANTS
   Dev = {}
   MaxMsgs = %d
   Depth = %d
+  ProbesLast = %s
 INVARIANT Emit
 ''' % (setof(clients), setof(actors), setof([c for c in clients if c not in actors]), pool_size,
-       'TRUE' if mode == 'transaction' else 'FALSE', maxmsgs, depth)
+       'TRUE' if mode == 'transaction' else 'FALSE', maxmsgs, depth, 'TRUE' if probes_last else 'FALSE')
 
 
-def generate(v, name, mode, pool_size, depth, clients=('A', 'B'), actors=('A',), maxmsgs=3):
+def generate(v, name, mode, pool_size, depth, clients=('A', 'B'), actors=('A',), maxmsgs=3, probes_last=False):
     cfg = 'Gen_PoolCore_%s_d%d.cfg' % (name, depth)
     with open(os.path.join(tlc.SPEC, cfg), 'w') as f:
-        f.write(gen_cfg_text(mode, pool_size, depth, clients, actors, maxmsgs))
+        f.write(gen_cfg_text(mode, pool_size, depth, clients, actors, maxmsgs, probes_last))
     res = tlc.run_tlc('Gen_PoolCore', cfg, workers=8, timeout=1500)
     if res.rc != 0:
         v.tool_error('Gen_PoolCore %s failed rc=%d: %s' % (cfg, res.rc, '; '.join(res.errors()[:3]) or res.out[-400:]))
@@ -130,7 +131,9 @@ def last_op_of(steps, client):
 
 
 def run_model_checks(v, prop, tier):
-    runs = [('design', 'MC_PoolCore_design.cfg', True), ('asbuilt', 'MC_PoolCore_asbuilt.cfg', False)]
+    runs = [('design', 'MC_PoolCore_design.cfg', True), ('asbuilt', 'MC_PoolCore_asbuilt.cfg', False),
+            ('dev:reset_before_rollback', 'MC_PoolCore_dev_reset_before_rollback.cfg', False),
+            ('dev:timeout_keeps_connection', 'MC_PoolCore_dev_timeout_keeps_connection.cfg', False)]
     if tier == 'thorough':
         runs.insert(1, ('design_3c', 'MC_PoolCore_design3.cfg', True))
         runs.insert(2, ('design_session', 'MC_PoolCore_session.cfg', True))
@@ -154,7 +157,7 @@ def run_model_checks(v, prop, tier):
             if not res.invariant_violated:
                 v.tool_error('PoolCore %s: expected an invariant violation with deviations enabled' % cfg)
             else:
-                v.extra['model_negative_control'] = 'as-built deviations violate %s' % res.invariant_violated
+                v.extra.setdefault('model_negative_control', []).append('%s violates %s' % (name, res.invariant_violated))
 
 
 def validate(v, family, results, key):
@@ -221,14 +224,18 @@ def check(prop, tier, seed):
     run_model_checks(v, prop, tier)
     depth = 6 if tier == 'quick' else 7
     scenarios = []
-    scenarios += generate(v, 'tx1', 'transaction', 1, depth)
+    scenarios += generate(v, 'tx1', 'transaction', 1, depth - 1)
+    # hand-off families: the probe runs after the actor has gone; longer actor programs
+    scenarios += generate(v, 'tx1h', 'transaction', 1, depth + 1, maxmsgs=4, probes_last=True)
+    scenarios += generate(v, 'sess1h', 'session', 1, depth, maxmsgs=3, probes_last=True)
     if prop in ('C01', 'C04', 'C10'):
         scenarios += generate(v, 'sess1', 'session', 1, depth - 1)
     if prop in ('C04', 'C01') or tier == 'thorough':
         scenarios += generate(v, 'tx2', 'transaction', 2, depth - 1)
     want = {
-        'C01': {'handoff', 'A:begin', 'A:copyin', 'A:copyin2', 'A:fail', 'early_return', 'exit_in_tx', 'idle_tx_timeout'},
-        'C02': {'handoff', 'A:set', 'A:begin', 'A:copyin', 'A:copyin2', 'early_return', 'exit_in_tx', 'idle_tx_timeout', 'A:big'},
+        'C01': {'handoff', 'A:begin', 'A:copyin', 'A:copyin2', 'A:fail', 'A:slow', 'early_return', 'exit_in_tx', 'idle_tx_timeout'},
+        'C02': {'handoff', 'A:set', 'A:prep', 'A:begin', 'A:fail', 'A:copyin', 'A:copyin2', 'A:slow', 'early_return', 'exit_in_tx',
+                'idle_tx_timeout', 'A:big'},
         'C04': {'checkout_timeout', 'early_return', 'exit_in_tx', 'handoff', 'idle_tx_timeout', 'leave'},
         'C10': {'cancel'},
     }[prop]
